@@ -146,6 +146,9 @@ namespace Handles
 /-- all appenders are quiescent -/
 def Quiet (s : Handles) : Prop := ∀ b ∈ s.bufs, b = []
 
+/-- every descriptor has `O_APPEND` -/
+def AllAppend (s : Handles) : Prop := ∀ o ∈ s.offs, o = none
+
 theorem view_quiet (s : Handles) (k : Nat) (h : s.Quiet) : (s.view k).buf = [] := by
   simp only [view]
   cases hk : s.bufs[k]? with
@@ -158,11 +161,36 @@ theorem quiet_set (s : Handles) (k : Nat) (h : s.Quiet) : ∀ b ∈ s.bufs.set k
   · exact h b h1
   · exact h1
 
+theorem off_allAppend (s : Handles) (k : Nat) (h : s.AllAppend) : s.off k = none := by
+  simp only [off]
+  cases hk : s.offs[k]? with
+  | none => rfl
+  | some o => simp [h o (List.mem_of_getElem? hk)]
+
+/-- with `O_APPEND` everywhere, `commit` is the plain "run on the shared file" -/
+theorem commit_allAppend (s : Handles) (k : Nat) (f : BufFile → BufFile) (h : s.AllAppend) :
+    s.commit k f = s.store k (f (s.view k)) := by
+  simp [commit, off_allAppend s k h]
+
+/-- the variants in which every descriptor `build` opens has `O_APPEND` -/
+theorem newOff_none (m : OpenMode) (flag : Bool) (hm : m = .append ∨ flag = true) : newOff m flag = none := by
+  rcases hm with rfl | rfl
+  · rfl
+  · cases m <;> rfl
+
+theorem allAppend_set (s : Handles) (k : Nat) (h : s.AllAppend) : ∀ o ∈ s.offs.set k none, o = none := by
+  intro o ho
+  rcases List.mem_or_eq_of_mem_set ho with h1 | h1
+  · exact h o h1
+  · exact h1
+
 /-- the model's trace is the specification's for every history: appends through any appender,
-failing encoders, foreign appends, further appenders, restarts -/
-theorem trace_eq_fileTraceM (m : OpenMode) (ops : List MOp) (s : Handles) (hq : s.Quiet)
+failing encoders, foreign appends, external truncations, further appenders, restarts — in every
+variant and mode in which `build` opens with `O_APPEND` -/
+theorem traceV_eq_fileTraceM (flag : Bool) (m : OpenMode) (hm : m = .append ∨ flag = true)
+    (ops : List MOp) (s : Handles) (hq : s.Quiet) (ha : s.AllAppend)
     (hv : validOps s.bufs.length ops = true) :
-    trace m s ops = Spec.fileTraceM m s.file ops := by
+    traceV flag m s ops = Spec.fileTraceM m s.file ops := by
   induction ops generalizing s with
   | nil => rfl
   | cons op ops ih =>
@@ -172,49 +200,85 @@ theorem trace_eq_fileTraceM (m : OpenMode) (ops : List MOp) (s : Handles) (hq : 
       have hvb := view_quiet s k hq
       cases fa with
       | none =>
-        have hfile : (applyOp m s (.append k r none)).file = s.file ++ encBytes r := by
+        have hap : applyOp m s (.append k r none) false flag = s.store k (FileAppender.append (s.view k) r) := by
+          simp [applyOp, hv.1, commit_allAppend s k _ ha]
+        have hfile : (applyOp m s (.append k r none) false flag).file = s.file ++ encBytes r := by
           have hvd : (s.view k).disk = s.file := rfl
-          simp [applyOp, hv.1, store, FileAppender.append_disk, hvb, hvd]
-        have hq' : (applyOp m s (.append k r none)).Quiet := by
-          simp only [applyOp, hv.1, if_true, store, FileAppender.append_buf]
+          simp [hap, store, FileAppender.append_disk, hvb, hvd]
+        have hq' : (applyOp m s (.append k r none) false flag).Quiet := by
+          rw [hap]
+          simp only [store, FileAppender.append_buf]
           exact quiet_set s k hq
-        have hlen : (applyOp m s (.append k r none)).bufs.length = s.bufs.length := by
-          simp [applyOp, hv.1, store]
-        simp only [trace, Spec.fileTraceM]
-        rw [ih _ hq' (by rw [hlen]; exact hv.2), hfile]
+        have ha' : (applyOp m s (.append k r none) false flag).AllAppend := by
+          rw [hap]; exact ha
+        have hlen : (applyOp m s (.append k r none) false flag).bufs.length = s.bufs.length := by
+          simp [hap, store]
+        simp only [traceV, Spec.fileTraceM]
+        rw [ih _ hq' ha' (by rw [hlen]; exact hv.2), hfile]
       | some n =>
         -- the encoder failed in memory: nothing happened to the file or to the appender
-        have hsame : applyOp m s (.append k r (some n)) = s := by simp [applyOp]
-        simp only [trace, Spec.fileTraceM]
-        rw [hsame, ih _ hq hv.2]
+        have hsame : applyOp m s (.append k r (some n)) false flag = s := by simp [applyOp]
+        simp only [traceV, Spec.fileTraceM]
+        rw [hsame, ih _ hq ha hv.2]
     | foreign x =>
       simp only [validOps] at hv
-      simp only [trace, Spec.fileTraceM]
-      rw [ih _ (by simpa [applyOp, Quiet] using hq) (by simpa [applyOp] using hv)]
+      simp only [traceV, Spec.fileTraceM]
+      rw [ih _ (by simpa [applyOp, Quiet] using hq) (by simpa [applyOp, AllAppend] using ha) (by simpa [applyOp] using hv)]
+      rfl
+    | truncate =>
+      simp only [validOps] at hv
+      simp only [traceV, Spec.fileTraceM]
+      rw [ih _ (by simpa [applyOp, Quiet] using hq) (by simpa [applyOp, AllAppend] using ha) (by simpa [applyOp] using hv)]
       rfl
     | build =>
       simp only [validOps] at hv
-      have hq' : (applyOp m s .build).Quiet := by
+      have hq' : (applyOp m s .build false flag).Quiet := by
         intro b hb
         simp only [applyOp, List.mem_append, List.mem_singleton] at hb
         rcases hb with hb | hb
         · exact hq b hb
         · exact hb
-      simp only [trace, Spec.fileTraceM]
-      rw [ih _ hq' (by simpa [applyOp] using hv)]
+      have ha' : (applyOp m s .build false flag).AllAppend := by
+        intro o ho
+        simp only [applyOp, List.mem_append, List.mem_singleton] at ho
+        rcases ho with ho | ho
+        · exact ha o ho
+        · rw [ho]; exact newOff_none m flag hm
+      simp only [traceV, Spec.fileTraceM]
+      rw [ih _ hq' ha' (by simpa [applyOp] using hv)]
       cases m <;> rfl
     | restart k =>
       simp only [validOps, Bool.and_eq_true, decide_eq_true_eq] at hv
       have hvb := view_quiet s k hq
-      have hq' : (applyOp m s (.restart k)).Quiet := by
-        simp only [applyOp, hv.1, if_true]
-        exact quiet_set s k hq
-      have hlen : (applyOp m s (.restart k)).bufs.length = s.bufs.length := by
-        simp [applyOp, hv.1]
       have hvd : (s.view k).disk = s.file := rfl
-      simp only [trace, Spec.fileTraceM]
-      rw [ih _ hq' (by rw [hlen]; exact hv.2)]
-      cases m <;> simp [applyOp, hv.1, openContent, hvb, hvd]
+      have hap : applyOp m s (.restart k) false flag =
+          { file := openContent m (some s.file), bufs := s.bufs.set k [], offs := s.offs.set k none } := by
+        simp [applyOp, hv.1, commit_allAppend s k _ ha, store, newOff_none m flag hm, hvb, hvd]
+      have hq' : (applyOp m s (.restart k) false flag).Quiet := by
+        rw [hap]; exact quiet_set s k hq
+      have ha' : (applyOp m s (.restart k) false flag).AllAppend := by
+        rw [hap]; exact allAppend_set s k ha
+      have hlen : (applyOp m s (.restart k) false flag).bufs.length = s.bufs.length := by
+        simp [hap]
+      simp only [traceV, Spec.fileTraceM]
+      rw [ih _ hq' ha' (by rw [hlen]; exact hv.2), hap]
+      cases m <;> simp [openContent]
+
+/-- the default trace is the trace of the default variant -/
+theorem trace_eq_traceV (m : OpenMode) (s : Handles) (ops : List MOp) :
+    trace m s ops = traceV truncateUsesAppendFlag m s ops := by
+  induction ops generalizing s with
+  | nil => rfl
+  | cons op ops ih => simp only [trace, traceV]; rw [ih]
+
+theorem init_quiet (m : OpenMode) (pre : Option Bytes) (flag : Bool) : (init m pre flag).Quiet := by
+  intro b hb; simpa [init] using hb
+
+theorem init_allAppend (m : OpenMode) (pre : Option Bytes) (flag : Bool) (hm : m = .append ∨ flag = true) :
+    (init m pre flag).AllAppend := by
+  intro o ho
+  simp only [init, List.mem_singleton] at ho
+  rw [ho]; exact newOff_none m flag hm
 
 end Handles
 
